@@ -8,19 +8,21 @@ SPEC = {
              "size limits; after every step first/last/hard state/snapshot and boundary reads, after every reopen and every overwrite a comparison of "
              "the log with etcd raft.MemoryStorage fed the same operations (plus an uncompacted model for the entries the file-granular deletion keeps); "
              "crash_image: directory copied before a generated file mutation (hook H1) of an operation and opened by a second store. A case is "
-             "non-trivial when it overwrote entries of a rotated file or reopened after a rotation (crash_image: an image was taken and judged); "
-             "distinct = hash of the operation list"),
+             "non-trivial when it overwrote entries of a rotated file or reopened after a rotation (store_small, which never rotates: overwrote entries and "
+             "reopened afterwards; crash_image: an image was taken and judged); distinct = hash of the operation list"),
     "assumptions": [
         "call sequences are those raft.Ready/raftconn produce: batches contiguous, first index in (commit, last+1], snapshot index in [previous snapshot, commit], DeleteBefore index <= snapshot index",
         "first index after a prefix deletion is only bounded (previous answer <= first <= requested), the store deletes whole files",
         "a crash image is a process death (all completed write calls visible), not a power failure",
         "Term(i) for i > last on a log without any entry may answer ErrCompacted instead of ErrUnavailable (raft never asks)",
+        "Save with a snapshot ahead of the log (snapshot received from a leader) is not generated: known finding, replay only",
+        "conf-state record (snapshot with index 0) is only saved while no real snapshot exists",
     ],
     "campaigns": [
-        {"name": "store_small", "run": "^TestStoreSmall$", "quick": B(400, 2), "thorough": B(20000, 2, 3000)},
-        {"name": "store_v2", "run": "^TestStoreV2$", "quick": B(24, 6), "thorough": B(900, 6, 3000)},
-        {"name": "store_v1", "run": "^TestStoreV1$", "quick": B(24, 3), "thorough": B(900, 3, 3000)},
-        {"name": "crash_image", "run": "^TestCrashImage$", "quick": B(24, 4), "thorough": B(900, 4, 3000)},
+        {"name": "store_small", "run": "^TestStoreSmall$", "quick": B(300, 2), "thorough": B(20000, 2, 3000)},
+        {"name": "store_v2", "run": "^TestStoreV2$", "quick": B(20, 6), "thorough": B(900, 6, 3000)},
+        {"name": "store_v1", "run": "^TestStoreV1$", "quick": B(20, 3), "thorough": B(900, 3, 3000)},
+        {"name": "crash_image", "run": "^TestCrashImage$", "quick": B(20, 4), "thorough": B(900, 4, 3000)},
     ],
 }
 
